@@ -37,6 +37,13 @@ fn main() {
             let m = AdjacencyMatrix::empty(1usize << 33);
             println!("F5 order {}", m.order());
         }
+        "f10" => {
+            let mut d = AdjacencyListWeighted::<usize>::empty(3);
+            d.add_arc_weighted(0, 1, 10); d.add_arc_weighted(1, 2, usize::MAX - 12); d.add_arc_weighted(2, 1, 3);
+            let dist = DijkstraDist::new(&d, std::iter::once(0)).distances();
+            println!("F10 distances {:?}", dist);
+            assert_eq!(dist, vec![0, 10, usize::MAX - 2]);
+        }
         _ => println!("usage: probe f1|f2|f3|f3dfs|f4|f5"),
     }
 }
